@@ -396,21 +396,57 @@ Definition child_slot (t0 : tbl) (us0 : list (option nat)) (i : nat) : option en
   | None => if i <? 3 then Some (mkE devnull false) else exec_entry (get t0 i)
   end.
 
-Theorem child_fds t0 us0 :
-  sources_open t0 us0 ->
-  exists t', child_init us0 None t0 = CExec t' /\
+Lemma ext_exec_entry sc t t' d : ext sc t t' -> exec_entry (get t' d) = exec_entry (get t d).
+Proof.
+  intros H. destruct (H d) as [E|(_ & N & f & E)]; rewrite E; [reflexivity|].
+  rewrite N. reflexivity.
+Qed.
+
+Lemma ext_none sc t t' d : ext sc t t' -> get t' d = None -> get t d = None.
+Proof. intros H N. destruct (H d) as [E|(_ & N' & _)]; congruence. Qed.
+
+Lemma sources_open_ext sc t t' us : ext sc t t' -> sources_open t us -> sources_open t' us.
+Proof.
+  intros X Ho k u Hk. specialize (Ho k u Hk).
+  destruct (get t u) as [e|] eqn:E; [|congruence]. rewrite (ext_some sc _ _ _ _ X E). discriminate.
+Qed.
+
+(* process.c:320-337: the error pipe ends up at or above stdio_count, on the
+   same file; the table only gains a close-on-exec descriptor above *)
+Lemma move_efd_spec sc efd t ew :
+  get t efd = Some ew ->
+  exists t0 efd1 e1, move_efd sc efd t = Some (t0, efd1) /\ ext sc t t0 /\
+    sc <= efd1 /\ get t0 efd1 = Some e1 /\ e_file e1 = e_file ew.
+Proof.
+  intros H. unfold move_efd. destruct (Nat.ltb_spec efd sc) as [L|G].
+  - unfold dupfd_cloexec. rewrite H.
+    destruct (alloc t sc (e_file ew) true) as [t0 n] eqn:A.
+    pose proof (ext_alloc _ _ _ _ _ A) as X.
+    apply alloc_spec in A as (A1 & _ & A3 & _).
+    exists t0, n, (mkE (e_file ew) true). repeat split; auto.
+  - exists t, efd, ew. repeat split; auto. apply ext_refl.
+Qed.
+
+Theorem child_fds t0 us0 efd :
+  sources_open t0 us0 -> get t0 efd <> None ->
+  exists t', child_init us0 efd None t0 = CExec t' /\
     (forall i, i < length us0 -> get t' i = child_slot t0 us0 i) /\
     (forall d, length us0 <= d -> get t' d = exec_entry (get t0 d)).
 Proof.
-  intros Ho. destruct (shuffle_spec t0 us0 Ho) as (t1 & us1 & T & E1 & E2 & X & A & B).
-  unfold child_init. rewrite E1, E2. eexists. split; [reflexivity|]. split.
+  intros Ho He. destruct (get t0 efd) as [ew|] eqn:Ee; [|congruence].
+  destruct (move_efd_spec (length us0) efd t0 ew Ee) as (tm & efd1 & e1 & Em & Xm & _).
+  pose proof (sources_open_ext _ _ _ _ Xm Ho) as Hom.
+  destruct (shuffle_spec tm us0 Hom) as (t1 & us1 & T & E1 & E2 & X & A & B).
+  unfold child_init. rewrite Em, E1, E2. eexists. split; [reflexivity|]. split.
   - intros i Hi. rewrite get_exec, (B i Hi). unfold want, child_slot.
-    destruct (nth i us0 None) as [u|].
-    + destruct (get t0 u); reflexivity.
-    + destruct (i <? 3); reflexivity.
+    destruct (nth i us0 None) as [u|] eqn:En.
+    + assert (Hu : nth_error us0 i = Some (Some u)).
+      { rewrite (nth_error_nth' us0 None) by lia. congruence. }
+      specialize (Ho i u Hu). destruct (get t0 u) as [e|] eqn:Eg; [|congruence].
+      rewrite (ext_some _ _ _ _ _ Xm Eg). reflexivity.
+    + destruct (i <? 3); [reflexivity|]. rewrite (ext_low _ _ _ _ Xm Hi). reflexivity.
   - intros d Hd. rewrite get_exec, (A d Hd).
-    destruct (X d) as [E|(_ & N & f & E)]; rewrite E; [reflexivity|].
-    rewrite N. reflexivity.
+    rewrite (ext_exec_entry _ _ _ _ X). apply (ext_exec_entry _ _ _ _ Xm).
 Qed.
 
 Lemma exec_cx_clear t d e : get (exec t) d = Some e -> e_cx e = false.
@@ -424,13 +460,13 @@ Definition others_cloexec (t0 : tbl) (us0 : list (option nat)) : Prop :=
   forall d e, (length us0 <= d \/ (3 <= d /\ nth d us0 None = None)) ->
               get t0 d = Some e -> e_cx e = true.
 
-Corollary child_no_other t0 us0 t' :
-  sources_open t0 us0 -> others_cloexec t0 us0 ->
-  child_init us0 None t0 = CExec t' ->
+Corollary child_no_other t0 us0 efd t' :
+  sources_open t0 us0 -> get t0 efd <> None -> others_cloexec t0 us0 ->
+  child_init us0 efd None t0 = CExec t' ->
   forall d, get t' d <> None -> d < length us0 /\ (d < 3 \/ nth d us0 None <> None).
 Proof.
-  intros Ho Hc He d Hd.
-  destruct (child_fds t0 us0 Ho) as (t2 & E & A & B).
+  intros Ho Hefd Hc He d Hd.
+  destruct (child_fds t0 us0 efd Ho Hefd) as (t2 & E & A & B).
   rewrite He in E. inversion E; subst t2. clear E.
   destruct (Nat.lt_ge_cases d (length us0)) as [L|G].
   - split; auto. destruct (Nat.lt_ge_cases d 3) as [L3|G3]; auto. right.
@@ -453,10 +489,6 @@ Definition sc_reaped (x : Z * tbl * option cres * option (option nat * Z) *
                           option (option wans) * list wans) : option (option wans) :=
   let '(_, _, _, _, r, _) := x in r.
 
-(* slot [w] is not written by the shuffle *)
-Definition untouched (us : list (option nat)) (w : nat) : Prop :=
-  length us <= w \/ (3 <= w /\ nth w us None = None).
-
 Lemma sources_open_alloc t us min f cx t' r :
   alloc t min f cx = (t', r) -> sources_open t us -> sources_open t' us.
 Proof.
@@ -464,44 +496,77 @@ Proof.
   specialize (Ho k u Hk). rewrite D; auto. intros ->. congruence.
 Qed.
 
-(* the table of a child that stops in uv__write_errno after a failed exec *)
-Lemma child_fail_table t0 us0 e w ew :
-  sources_open t0 us0 -> untouched us0 w -> get t0 w = Some ew ->
-  exists T, child_init us0 (Some e) t0 = CFail T (- e)%Z /\ get T w = Some ew.
+(* the table of a child that stops in uv__write_errno after a failed exec:
+   its error_fd still refers to the error pipe *)
+Lemma child_fail_table t0 us0 e efd ew :
+  sources_open t0 us0 -> get t0 efd = Some ew ->
+  exists T efd1 e1, child_init us0 efd (Some e) t0 = CFail T efd1 (- e)%Z /\
+    get T efd1 = Some e1 /\ e_file e1 = e_file ew.
 Proof.
-  intros Ho Hu Hw. destruct (shuffle_spec t0 us0 Ho) as (t1 & us1 & T & E1 & E2 & X & A & B).
-  unfold child_init. rewrite E1, E2. eexists. split; [reflexivity|].
-  destruct (Nat.lt_ge_cases w (length us0)) as [L|G].
-  - destruct Hu as [Hu|[H3 Hn]]; [lia|].
-    rewrite (B w L). unfold want. rewrite Hn. destruct (Nat.ltb_spec w 3); [lia|auto].
-  - rewrite (A w G). eapply ext_some; eauto.
+  intros Ho Hw.
+  destruct (move_efd_spec (length us0) efd t0 ew Hw) as (tm & efd1 & e1 & Em & Xm & G & Gm & Fm).
+  pose proof (sources_open_ext _ _ _ _ Xm Ho) as Hom.
+  destruct (shuffle_spec tm us0 Hom) as (t1 & us1 & T & E1 & E2 & X & A & B).
+  unfold child_init. rewrite Em, E1, E2. exists T, efd1, e1. split; [reflexivity|].
+  split; [|exact Fm]. rewrite (A efd1 G). eapply ext_some; eauto.
 Qed.
 
-Theorem exec_failure_reported t us fresh e wo t1 rfd t2 wfd :
-  alloc t 0 fresh true = (t1, rfd) ->
-  alloc t1 0 (S fresh) true = (t2, wfd) ->
-  sources_open t us -> untouched us wfd ->
+(* commit a79de05: no hypothesis on where the error pipe landed any more *)
+Theorem exec_failure_reported t us fresh e wo :
+  sources_open t us ->
   sc_ret (spawn_child t us fresh false false (Some e) wo) = (- e)%Z /\
   sc_reaped (spawn_child t us fresh false false (Some e) wo) = Some (fst (wait_retry wo)).
 Proof.
-  intros A1 A2 Ho Hu. unfold spawn_child. rewrite A1, A2.
+  intros Ho. unfold spawn_child.
+  destruct (alloc t 0 fresh true) as [t1 rfd] eqn:A1.
+  destruct (alloc t1 0 (S fresh) true) as [t2 wfd] eqn:A2.
   pose proof (sources_open_alloc _ _ _ _ _ _ _ A1 Ho) as Ho1.
   pose proof (sources_open_alloc _ _ _ _ _ _ _ A2 Ho1) as Ho2.
   pose proof A2 as A2'. apply alloc_spec in A2' as (_ & _ & C & _ & _).
-  destruct (child_fail_table t2 us e wfd _ Ho2 Hu C) as (T & E & G).
-  rewrite E, G. cbn [e_file]. rewrite Nat.eqb_refl.
+  destruct (child_fail_table t2 us e wfd _ Ho2 C) as (T & efd1 & e1 & E & G & F).
+  rewrite E, G, F. cbn [e_file]. rewrite Nat.eqb_refl.
   destruct (wait_retry wo) as [a wo1]. split; reflexivity.
 Qed.
 
-(* without the hypothesis: 0,1,2 open, six slots, the error pipe lands on 3/4
-   and slot 4 is mapped: the parent sees success *)
-Lemma error_pipe_clobbered_witness :
+(* History: the code before commit a79de05 (no move of error_fd).  With 0,1,2
+   open, six slots, the error pipe lands on 3/4 and slot 4 is mapped: the
+   parent saw success. *)
+Definition child_init_unfixed (us : list (option nat)) (efd : nat) (exec_err : option Z)
+           (t : tbl) : cres :=
+  let sc := length us in
+  match pass1 sc 0 us t with
+  | Fail t1 e => CFail t1 efd e
+  | Ok (t1, us1) =>
+      match pass2 sc 0 us1 t1 with
+      | Fail t2 e => CFail t2 efd e
+      | Ok t2 => match exec_err with
+                 | None => CExec (exec t2)
+                 | Some e => CFail t2 efd (- e)%Z
+                 end
+      end
+  end.
+
+(* exec_errorno as the parent computed it from such a child *)
+Definition exec_errorno_unfixed (t : tbl) (us : list (option nat)) (fresh : nat) (e : Z) : Z :=
+  let '(t1, rfd) := alloc t 0 fresh true in
+  let '(t2, wfd) := alloc t1 0 (S fresh) true in
+  match child_init_unfixed us wfd (Some e) t2 with
+  | CExec _ => 0%Z
+  | CFail tc efd err =>
+      match get tc efd with
+      | Some w => if (e_file w =? S fresh)%nat then err else 0%Z
+      | None => 0%Z
+      end
+  end.
+
+Lemma error_pipe_clobbered_before_a79de05 :
   let t := [Some (mkE 1 false); Some (mkE 2 false); Some (mkE 3 false)] in
   let us := [Some 0; Some 1; Some 2; Some 0; Some 1; Some 2] in
   sources_open t us /\
-  sc_ret (spawn_child t us 10 false false (Some 2%Z) []) = 0%Z.
+  exec_errorno_unfixed t us 10 2%Z = 0%Z /\
+  sc_ret (spawn_child t us 10 false false (Some 2%Z) []) = (-2)%Z.
 Proof.
-  cbv zeta. split; [|vm_compute; reflexivity].
+  cbv zeta. split; [|split; vm_compute; reflexivity].
   intros k u Hk.
   do 6 (destruct k as [|k]; [inversion Hk; subst; vm_compute; discriminate|]).
   destruct k; discriminate.
@@ -957,19 +1022,17 @@ Proof.
   rewrite ret_nonzero_inactive in Ea by auto. discriminate.
 Qed.
 
-(* a witness at the level of uv_spawn and the loop: exec fails (ENOENT), the
-   spawn reports success, the handle is active and the callback later says
-   "exited with 127" *)
+(* the former witness at the level of uv_spawn: now the error arrives *)
 Definition clobber_spec : spec :=
   mkSpec [Some (mkE 1 false); Some (mkE 2 false); Some (mkE 3 false)]
          [SFd 0; SFd 1; SFd 2; SFd 0; SFd 1; SFd 2]
          true 7 10 None false false (Some 2%Z).
 
-Lemma clobber_run :
-  r_ret (fst (uv_spawn clobber_spec [])) = 0%Z /\
-  r_active (fst (uv_spawn clobber_spec [])) = true /\
-  r_wrote (fst (uv_spawn clobber_spec [])) = Some (Some 2, (-2)%Z) /\
-  exits (snd (run linit [OSpawn 0 clobber_spec []; OScan [WPid 32512%Z]])) = [(0, 127%Z, 0%Z)].
+Lemma clobber_spec_now :
+  r_ret (fst (uv_spawn clobber_spec [WPid 32512%Z])) = (-2)%Z /\
+  r_active (fst (uv_spawn clobber_spec [WPid 32512%Z])) = false /\
+  r_reaped (fst (uv_spawn clobber_spec [WPid 32512%Z])) = Some (Some (WPid 32512%Z)) /\
+  exits (snd (run linit [OSpawn 0 clobber_spec [WPid 32512%Z]; OScan []])) = [].
 Proof. vm_compute. repeat split; reflexivity. Qed.
 
 (* the parent's table is unchanged by a uv_spawn without UV_CREATE_PIPE slots,
@@ -1015,9 +1078,9 @@ Proof.
     - rewrite <- B2. destruct (Nat.eq_dec wfd rfd) as [->|N3]; [congruence|]. apply D1. auto.
     - rewrite D2 by auto. apply D1. auto. }
   destruct ff; [exact X|].
-  destruct (child_init us ee t2) as [tc|tc e].
+  destruct (child_init us wfd ee t2) as [tc|tc efd e].
   - exact X.
-  - destruct (get tc wfd) as [w|]; [|exact X].
+  - destruct (get tc efd) as [w|]; [|exact X].
     destruct (e_file w =? S fresh)%nat; [|exact X].
     destruct (wait_retry wo). exact X.
 Qed.
@@ -1047,15 +1110,6 @@ Fixpoint npipes (cs : list stdio) : nat :=
   | SPipe :: r => S (npipes r)
   | _ :: r => npipes r
   end.
-
-Lemma ext_exec_entry sc t t' d : ext sc t t' -> exec_entry (get t' d) = exec_entry (get t d).
-Proof.
-  intros H. destruct (H d) as [E|(_ & N & f & E)]; rewrite E; [reflexivity|].
-  rewrite N. reflexivity.
-Qed.
-
-Lemma ext_none sc t t' d : ext sc t t' -> get t' d = None -> get t d = None.
-Proof. intros H N. destruct (H d) as [E|(_ & N' & _)]; congruence. Qed.
 
 Definition no_bad (cs : list stdio) : Prop := forall c, In c cs -> c <> SBad.
 
@@ -1195,7 +1249,9 @@ Proof.
       destruct (get (s_tbl sp) fd) as [e|] eqn:Eg; [|congruence].
       rewrite (ext_some 0 _ _ _ _ X2 Eg). discriminate.
     - congruence. }
-  destruct (child_fds t2 us Hopen) as (t' & Ec & A & B).
+  assert (Hw : get t2 wfd <> None).
+  { apply alloc_spec in Ab as (_ & _ & C & _). rewrite C. discriminate. }
+  destruct (child_fds t2 us wfd Hopen Hw) as (t' & Ec & A & B).
   rewrite Ec.
   destruct (open_streams (s_stdio sp) ps 0 (close (close t2 wfd) rfd)) as [t3 streams].
   cbn [fst r_ret r_active r_child]. split; [reflexivity|]. split; [reflexivity|].
@@ -1278,4 +1334,172 @@ Proof.
   cbn [fst r_streams r_ptbl]. exists a. split.
   - apply (B i a (Some b)); auto.
   - rewrite (A a Hneq). simpl in R. rewrite R. exact S2.
+Qed.
+
+(* ------------------------------------------------------------------ *)
+(* I. a failing exec seen through uv_spawn; the descriptor ledger         *)
+(* ------------------------------------------------------------------ *)
+Lemma init_us_open sp t1 ps :
+  inherited_open sp -> length ps = length (s_stdio sp) -> ext 0 (s_tbl sp) t1 ->
+  (forall i,
+      match nth_error (s_stdio sp) i with
+      | Some SIgnore => nth_error ps i = Some (None, None)
+      | Some (SFd fd) => nth_error ps i = Some (None, Some fd)
+      | Some SPipe =>
+          exists a b, nth_error ps i = Some (Some a, Some b) /\
+            get t1 a = Some (mkE (s_fresh sp + 2 * npipes (firstn i (s_stdio sp))) true) /\
+            get t1 b = Some (mkE (S (s_fresh sp + 2 * npipes (firstn i (s_stdio sp)))) true) /\
+            get (s_tbl sp) a = None /\ get (s_tbl sp) b = None
+      | Some SBad => False
+      | None => True
+      end) ->
+  sources_open t1 (pad3 3 (map snd ps)).
+Proof.
+  intros Ho L X HS k u Hk.
+  assert (Hn : nth k (pad3 3 (map snd ps)) None = Some u) by (erewrite nth_error_nth; eauto).
+  rewrite pad3_nth in Hn. rewrite (map_nth snd ps (None, None)) in Hn.
+  specialize (HS k). destruct (nth_error (s_stdio sp) k) as [c|] eqn:En.
+  - destruct c as [| |fd|].
+    + rewrite (nth_error_nth _ _ (None, None) HS) in Hn. discriminate.
+    + destruct HS as (a & b & S1 & _ & S3 & _).
+      rewrite (nth_error_nth _ _ (None, None) S1) in Hn. inversion Hn; subst. congruence.
+    + rewrite (nth_error_nth _ _ (None, None) HS) in Hn. inversion Hn; subst.
+      pose proof (Ho k u En) as H. destruct (get (s_tbl sp) u) as [e|] eqn:Eg; [|congruence].
+      rewrite (ext_some 0 _ _ _ _ X Eg). discriminate.
+    + destruct HS.
+  - apply nth_error_None in En. rewrite nth_overflow in Hn by lia. discriminate.
+Qed.
+
+Theorem spawn_exec_failure sp wo e :
+  no_bad (s_stdio sp) -> inherited_open sp ->
+  s_sp_fail sp = None -> s_pipe_fail sp = false -> s_fork_fail sp = false ->
+  s_exec_err sp = Some e ->
+  let r := fst (uv_spawn sp wo) in
+  r_ret r = (- e)%Z /\ r_active r = (- e =? 0)%Z /\ r_reaped r = Some (fst (wait_retry wo)).
+Proof.
+  intros Hb Ho Hsp Hpf Hff Hee. cbv zeta. unfold uv_spawn. rewrite Hsp.
+  destruct (init_stdio_spec (s_stdio sp) (s_tbl sp) (s_fresh sp) 0 Hb) as (t1 & ps & E & L & X & HS).
+  rewrite E. rewrite Hpf, Hff, Hee.
+  pose proof (init_us_open sp t1 ps Ho L X HS) as Hopen.
+  pose proof (exec_failure_reported t1 (pad3 3 (map snd ps)) (s_fresh sp + 2 * npipes (s_stdio sp))
+                e wo Hopen) as (R1 & R2).
+  destruct (spawn_child t1 (pad3 3 (map snd ps)) (s_fresh sp + 2 * npipes (s_stdio sp))
+              false false (Some e) wo) as [[[[[eno t2] c] wrote] reaped] wo2].
+  destruct (open_streams (s_stdio sp) ps 0 t2) as [t3 streams].
+  simpl in *. subst. auto.
+Qed.
+
+(* every descriptor init_stdio adds is an end of a UV_CREATE_PIPE pair *)
+Lemma init_stdio_new : forall cs t fresh nsp,
+  no_bad cs ->
+  forall t1 ps f1 e, init_stdio cs t fresh nsp None = (t1, ps, f1, e) ->
+  forall d, get t1 d = get t d \/
+    exists i a b, nth_error cs i = Some SPipe /\ nth_error ps i = Some (Some a, Some b) /\
+                  (d = a \/ d = b).
+Proof.
+  induction cs as [|c r IH]; intros t fresh nsp Hb t1 ps f1 e H d.
+  - simpl in H. inversion H; subst. auto.
+  - assert (Hr : no_bad r) by (intros x Hx; apply Hb; right; auto).
+    cbn [init_stdio] in H. destruct c.
+    + destruct (init_stdio r t fresh nsp None) as [[[t1' ps'] f1'] e'] eqn:E.
+      inversion H; subst. destruct (IH _ _ _ Hr _ _ _ _ E d) as [A|(i & a & b & A1 & A2 & A3)]; auto.
+      right. exists (S i), a, b. auto.
+    + destruct (alloc t 0 fresh true) as [ta a] eqn:Aa.
+      destruct (alloc ta 0 (S fresh) true) as [tb b] eqn:Ab.
+      destruct (init_stdio r tb (S (S fresh)) (S nsp) None) as [[[t1' ps'] f1'] e'] eqn:E.
+      inversion H; subst.
+      apply alloc_spec in Aa as (_ & _ & _ & Da & _).
+      apply alloc_spec in Ab as (_ & _ & _ & Db & _).
+      destruct (Nat.eq_dec d a) as [->|Na]; [right; exists 0, a, b; simpl; auto|].
+      destruct (Nat.eq_dec d b) as [->|Nb]; [right; exists 0, a, b; simpl; auto|].
+      destruct (IH _ _ _ Hr _ _ _ _ E d) as [A|(i & a' & b' & A1 & A2 & A3)].
+      * left. rewrite A, Db, Da; auto.
+      * right. exists (S i), a', b'. auto.
+    + destruct (init_stdio r t fresh nsp None) as [[[t1' ps'] f1'] e'] eqn:E.
+      inversion H; subst. destruct (IH _ _ _ Hr _ _ _ _ E d) as [A|(i & a & b & A1 & A2 & A3)]; auto.
+      right. exists (S i), a, b. auto.
+    + exfalso. apply (Hb SBad); [left; auto|auto].
+Qed.
+
+Lemma open_streams_none : forall cs ps k t t' l d,
+  open_streams cs ps k t = (t', l) -> get t d = None -> get t' d = None.
+Proof.
+  induction cs as [|c r IH]; intros ps k t t' l d H N.
+  - simpl in H. inversion H; subst. auto.
+  - destruct ps as [|[a0 b0] pr].
+    + simpl in H. destruct c; inversion H; subst; auto.
+    + cbn [open_streams] in H.
+      destruct c; try (eapply IH; eauto; fail).
+      destruct a0 as [pa|]; [|eapply IH; eauto].
+      destruct (open_streams r pr (S k) (close_opt t b0)) as [t1 l1] eqn:E1.
+      inversion H; subst. eapply IH; [exact E1|].
+      destruct b0 as [b0|]; simpl; auto. rewrite get_close. destruct (b0 =? d); auto.
+Qed.
+
+Lemma open_streams_closes : forall cs ps k t t' l j a b,
+  open_streams cs ps k t = (t', l) ->
+  nth_error cs j = Some SPipe -> nth_error ps j = Some (Some a, Some b) -> get t' b = None.
+Proof.
+  induction cs as [|c r IH]; intros ps k t t' l j a b H Hc Hp.
+  - destruct j; discriminate.
+  - destruct ps as [|[a0 b0] pr]; [destruct j; discriminate|].
+    cbn [open_streams] in H. destruct j as [|j]; simpl in Hc, Hp.
+    + inversion Hc; subst. inversion Hp; subst.
+      destruct (open_streams r pr (S k) (close_opt t (Some b))) as [t1 l1] eqn:E1.
+      inversion H; subst. eapply open_streams_none; [exact E1|].
+      simpl. rewrite get_close, Nat.eqb_refl. reflexivity.
+    + destruct c; try (eapply IH; eauto; fail).
+      destruct a0 as [pa|]; [|eapply IH; eauto].
+      destruct (open_streams r pr (S k) (close_opt t b0)) as [t1 l1] eqn:E1.
+      inversion H; subst. eapply IH; eauto.
+Qed.
+
+(* whatever happens after the stdio rows were set up (pipe2, fork or exec
+   failing, or success), every descriptor of the parent that was not handed to
+   a stream is what it was before uv_spawn *)
+Theorem spawn_ledger sp wo :
+  no_bad (s_stdio sp) -> s_sp_fail sp = None ->
+  let r := fst (uv_spawn sp wo) in
+  forall d, (forall i, ~ In (i, d) (r_streams r)) -> get (r_ptbl r) d = get (s_tbl sp) d.
+Proof.
+  intros Hb Hsp. cbv zeta. unfold uv_spawn. rewrite Hsp.
+  destruct (init_stdio_spec (s_stdio sp) (s_tbl sp) (s_fresh sp) 0 Hb) as (t1 & ps & E & L & X & HS).
+  pose proof (init_stdio_new _ _ _ _ Hb _ _ _ _ E) as New.
+  rewrite E.
+  pose proof (spawn_child_restores t1 (pad3 3 (map snd ps)) (s_fresh sp + 2 * npipes (s_stdio sp))
+                (s_pipe_fail sp) (s_fork_fail sp) (s_exec_err sp) wo) as R.
+  destruct (spawn_child t1 (pad3 3 (map snd ps)) (s_fresh sp + 2 * npipes (s_stdio sp))
+              (s_pipe_fail sp) (s_fork_fail sp) (s_exec_err sp) wo)
+    as [[[[[eno t2] c] wrote] reaped] wo2].
+  destruct (open_streams (s_stdio sp) ps 0 t2) as [t3 streams] eqn:Eo.
+  destruct (open_streams_spec _ _ _ _ _ _ Eo) as (A & B).
+  cbn [fst r_streams r_ptbl]. simpl in R. intros d Hd.
+  destruct (New d) as [Same|(i & a & b & N1 & N2 & [->| ->])].
+  - rewrite A; [rewrite R; exact Same|].
+    intros j a b Hj Hp ->. pose proof (HS j) as Sj. rewrite Hj in Sj.
+    destruct Sj as (a2 & b2 & T1 & _ & T3 & _ & T5). rewrite Hp in T1. inversion T1; subst.
+    congruence.
+  - exfalso. apply (Hd i). apply (B i a (Some b)); auto.
+  - rewrite (open_streams_closes _ _ _ _ _ _ _ _ _ Eo N1 N2).
+    pose proof (HS i) as Si. rewrite N1 in Si.
+    destruct Si as (a2 & b2 & T1 & _ & _ & _ & T5). rewrite N2 in T1. inversion T1; subst.
+    symmetry. exact T5.
+Qed.
+
+Theorem failed_spawn_clean sp wo e :
+  no_bad (s_stdio sp) -> inherited_open sp ->
+  s_sp_fail sp = None -> s_pipe_fail sp = false -> s_fork_fail sp = false ->
+  s_exec_err sp = Some e -> e <> 0%Z ->
+  let r := fst (uv_spawn sp wo) in
+  r_ret r = (- e)%Z /\ r_active r = false /\ r_reaped r = Some (fst (wait_retry wo)) /\
+  (forall d, (forall i, ~ In (i, d) (r_streams r)) -> get (r_ptbl r) d = get (s_tbl sp) d) /\
+  (forall ops h s' evs, NoDup (spawn_handles ops) -> run linit ops = (s', evs) ->
+     In (OSpawn h sp wo) ops -> forall es ts, ~ In (h, es, ts) (exits evs)).
+Proof.
+  intros Hb Ho Hsp Hpf Hff Hee Hne. cbv zeta.
+  destruct (spawn_exec_failure sp wo e Hb Ho Hsp Hpf Hff Hee) as (R1 & R2 & R3).
+  split; [exact R1|]. split; [rewrite R2; apply Z.eqb_neq; lia|]. split; [exact R3|].
+  split; [exact (spawn_ledger sp wo Hb Hsp)|].
+  intros ops h s' evs N R I. apply (failed_spawn_no_exit ops s' evs h sp wo N R I).
+  rewrite R1. lia.
 Qed.
